@@ -929,9 +929,10 @@ class Ctx:
         return self.require(False, label, detail=detail)
 
     def reach(self):
-        """reachability twin marker: in twin mode this must be reported as violated"""
-        if self.twin and self.mode == "sym":
-            self.notes["reached"] = True
+        """reachability marker: placed where the harness's main obligations start.  A harness none of whose
+        completed paths ever gets here proves nothing (vacuous assumptions, early returns): the driver
+        reports that as an engine error (the 'assert false must be reachable' twin, without a second run)"""
+        self.notes["reached"] = True
 
     def observe(self, label, value):
         self.observations.append((label, value))
